@@ -444,6 +444,7 @@ namespace vh
             md.description = pid;
             Stats& st = stats();
             std::vector<uint8_t> last_fail;
+            bool have_fail = false;
             std::string lf_kind, lf_detail, lf_desc;
             const int sc = static_cast<int>(scale);
             auto result = rc::detail::checkTestable(
@@ -460,6 +461,7 @@ namespace vh
                             st.shrink_steps++;
                         st.frozen = true;  // statistics stop at the first failure (shrinking follows)
                         last_fail = bytes;
+                        have_fail = true;
                         lf_kind = st.v_kind;
                         lf_detail = st.v_detail;
                         lf_desc = c.desc;
@@ -469,7 +471,7 @@ namespace vh
                 md,
                 params);
             bool ok = result.template is<rc::detail::SuccessResult>();
-            if (!ok && !last_fail.empty())
+            if (!ok && have_fail)
             {
                 st.violated = true;
                 st.v_bytes = last_fail;
